@@ -647,6 +647,7 @@ let () =
   if !bad = [] then print_string "UNIVERSE\tok\n"
   else Printf.printf "UNIVERSE\tMISMATCH\t%s\n" (String.concat "," (List.rev !bad));
   if not (env_ok u.env) then print_string "UNIVERSE\tENV-NOT-OK\n";
+  if not (init_ok u.env) then print_string "UNIVERSE\tENV-NOT-OK\tinit_ok\n";
   let ic = open_in_bin Sys.argv.(2) in
   (try
      while true do
